@@ -6,12 +6,13 @@
    EVERY program of the calculus and every pick sequence, hence for the executor written in it
    (a_execute_operation), which the check runs against the real engine under enumerated schedules.
    PARTIAL (runtime, outside the model): asyncio's task wake-up order beyond FIFO start, gather
-   internals, cancellation, timeouts, thread-pool resolvers.  Identical data across the sibling
-   strategies is C08_config_data_eq (from the C01 refinement); PARTIAL (decided per run): the list and
-   argument-coercion options, which the state-passing model does not distinguish. *)
+   internals, cancellation, timeouts, thread-pool resolvers.  Identical data across the sibling and
+   list strategies (engine-wide or per field: `field_parent` / `field_list` of the configuration) is
+   C08_config_data_eq (from the C01 refinement, which holds for every configuration); PARTIAL (decided
+   per run): the argument-coercion option (gather / one by one), which the models do not distinguish. *)
 From Coq Require Import ZArith List String Bool Permutation.
 From TV Require Import Py.Prelude Model.Schema Model.ImplInput Model.ImplExec Model.SpecExec Model.Async Proofs.AsyncProofs
-     Proofs.ExecRefine Proofs.AsyncBridge.
+     Proofs.ExecRefine Proofs.AsyncBridge Proofs.ExecCalls.
 Import ListNotations.
 Open Scope list_scope.
 
@@ -118,6 +119,25 @@ Proof.
   split; apply flat_map_perm'; exact Hp.
 Qed.
 
+(* "none is started twice": under EVERY schedule of the resolver completions and every configuration, the resolver
+   invocations of a request are at pairwise different response paths *)
+Lemma rsites_perm a b : Permutation a b -> Permutation (rsites a) (rsites b).
+Proof. unfold rsites. apply flat_map_perm. Qed.
+
+Theorem C08_no_resolver_called_twice sch doc vs U cfg op root picks d evs :
+  run_sched (resolver U) picks (a_execute_operation sch doc vs U cfg op root) = Some (PDone (RVal d), evs) ->
+  NoDup (rsites (calls_of evs)).
+Proof.
+  intros Hrun.
+  destruct (schedule_independence _ _ _ _ _ Hrun) as [Hr Hp].
+  pose proof (execute_operation_bridge sch doc vs U cfg op root) as Hb.
+  destruct (run_seq (resolver U) (a_execute_operation sch doc vs U cfg op root)) as [r0 ev0]. cbn [fst snd] in *. subst r0.
+  cbn [response_of] in Hb. symmetry in Hb.
+  pose proof (execute_operation_calls_once sch doc vs U cfg op root _ Hb) as Hn. cbn [r_log] in Hn.
+  eapply Permutation_NoDup; [|exact Hn]. apply Permutation_sym, rsites_perm.
+  unfold calls_of. apply flat_map_perm. exact Hp.
+Qed.
+
 Print Assumptions C08_calculus_executor_is_the_executor.
 Print Assumptions C08_every_schedule_and_configuration_gives_the_specified_data.
 Print Assumptions C08_config_data_eq.
@@ -128,3 +148,4 @@ Print Assumptions C08_no_deadlock.
 Print Assumptions C08_every_release_decreases.
 Print Assumptions C08_schedules_are_bounded.
 Print Assumptions C08_execute_schedule_independent.
+Print Assumptions C08_no_resolver_called_twice.
